@@ -143,9 +143,20 @@ BREAKS = ["\n", "\n", "\n", "\r\n", "\r", "\x0b", "\x0c", "\x1c", "\x1d", "\x1e"
 JARFILE = "Error: Unable to access jarfile"
 
 
+NAME_PIECES = ["first", "name", "hh", "member", "count", "age", "q", "grp", "Village", "id", "x"]
+
+
+def gen_name(rng):
+    """an XLSForm-legal ASCII element name: letters, digits, `-` and `_` (never starting with a digit or hyphen)"""
+    n = rng.choice(NAME_PIECES)
+    for _ in range(rng.randint(0, 3)):
+        n += rng.choice(["-", "-", "_", "", "-_", "--"]) + rng.choice(NAME_PIECES + ["1", "27", "0x"])
+    return n
+
+
 def gen_path(rng, odd=False):
     n = rng.randint(2, 4)
-    segs = [rng.choice(NAMES) for _ in range(n)]
+    segs = [gen_name(rng) if rng.random() < 0.4 else rng.choice(NAMES) for _ in range(n)]
     if odd:
         segs[rng.randrange(n)] = rng.choice(ODD_NAMES)
     return "/" + "/".join(segs)
@@ -470,12 +481,39 @@ def run_oracle(case, obs, af):
 
 # ----------------------------------------------------------------------------- enumeration
 
+JVM_NOTICES = ["Picked up JAVA_TOOL_OPTIONS: -Xmx512m -Dfile.encoding=UTF-8", "Picked up _JAVA_OPTIONS: -Djava.io.tmpdir=/tmp",
+               "NOTE: Picked up JDK_JAVA_OPTIONS: --add-opens=java.base/java.lang=ALL-UNNAMED",
+               "OpenJDK 64-Bit Server VM warning: Options -Xverify:none and -noverify were deprecated in JDK 13",
+               "WARNING: An illegal reflective access operation has occurred", "SLF4J: Failed to load class \"org.slf4j.impl.StaticLoggerBinder\".",
+               "Java HotSpot(TM) 64-Bit Server VM warning: ignoring option MaxPermSize=256m; support was removed in 8.0"]
+
+
+def gen_accept_stderr(rng, first=None):
+    """stderr of an accepting validator as a JVM really produces it: zero or more start-up notices of the JVM /
+    logging framework first, then the validator's own warnings"""
+    lines = [first or rng.choice(JVM_NOTICES)] + [rng.choice(JVM_NOTICES) for _ in range(rng.randint(0, 1))]
+    for _ in range(rng.randint(1, 3)):
+        lines.append(rng.choice(["Warning: ", "WARNING: ", ""]) + rng.choice(
+            ["XForm is valid but the title is missing for " + gen_path(rng), "Function 'pulldata' is not supported by every client: " + gen_path(rng),
+             "The field " + gen_path(rng) + " has no label", "1 warning(s) in " + gen_path(rng)]))
+    return "\n".join(lines) + "\n"
+
+
 def outcomes(ctx, rng, factor):
     n_rej = ctx.pick(3, 40) * min(factor, 2)
     n_warn = ctx.pick(1, 8)
+    n_notice = ctx.pick(3, 10)
     outs = [{"tag": "exit0-silent", "kind": "exit", "code": 0, "stderr": ""}]
     for i in range(n_warn):
         outs.append({"tag": "exit0-stderr", "kind": "exit", "code": 0, "stderr": gen_stderr(rng, directed=False) if i else "Warning: /data/g/q1 is odd\n"})
+    for i in range(n_notice):
+        # the JVM's own "Picked up <VAR>: ..." line is what containers / CI produce on every start: always present once
+        first = rng.choice(JVM_NOTICES[:3]) if i == 0 else rng.choice(JVM_NOTICES[3:]) if i == 1 else None
+        outs.append({"tag": "exit0-jvm-notice+stderr", "kind": "exit", "code": 0, "stderr": gen_accept_stderr(rng, first)})
+    # a rejection citing nodes whose names use every legal ASCII name character
+    outs.append({"tag": "exit>0-named-paths", "kind": "exit", "code": 1,
+                 "stderr": "Error evaluating field '" + gen_name(rng) + "': " + "/data/" + gen_name(rng) + "/" + gen_name(rng) + "-" + gen_name(rng)
+                           + " depends on /data/" + gen_name(rng) + "_" + gen_name(rng) + "\nResult: Invalid\n"})
     for i in range(n_rej):
         outs.append({"tag": "exit>0", "kind": "exit", "code": rng.choice([1, 1, 2, 3, 70, 137, 255]), "stderr": gen_stderr(rng)})
     outs.append({"tag": "exit>0", "kind": "exit", "code": 1,
